@@ -99,7 +99,7 @@ func init() {
 		Phases: func(tier universe.Tier) []*harness.Phase {
 			ps := []*harness.Phase{{
 				Name: "unknown-fields",
-				Rule: "6 nesting forms x 3 levels x 4 placements x 19 unknown field types x 21 second-extra variants (incl. 9 and 17 additional unknown fields in one struct) x 3 wire orders; each with holder (decode, size, re-encode, second hop) and without; distinct by message bytes",
+				Rule: "6 nesting forms x 3 levels x 4 placements x 19 unknown field types x 21 second-extra variants (thorough: 117; incl. 9 and 17 additional unknown fields in one struct) x 3 wire orders; each with holder (decode, size, re-encode, second hop) and without; distinct by message bytes",
 				Body: func(c *explore.C) { c11Body(c, tier) },
 			}}
 			return append(ps, e3Phases("C11")...)
@@ -113,16 +113,20 @@ func c11Body(c *explore.C, tier universe.Tier) {
 	e1 := c11Extra{level: c.Choose(3, explore.Data, "level"), id: c11Places[c.Choose(len(c11Places), explore.Data, "place")], t: uts[c.Choose(len(uts), explore.Data, "unknown-type")]}
 	extras := []c11Extra{e1}
 	// second extra field: none, or one of 3 types x 2 places x 3 levels; or MANY extra fields in one struct
-	k := c.Choose(19+2, explore.Data, "second-extra")
-	if k >= 19 {
-		n := []int{9, 17}[k-19]
+	seconds := []*ref.Type{universe.Sc(ref.KI16), universe.Sc(ref.KString), universe.ListOf(universe.StPtr(universe.Leaf()))}
+	if tier == universe.Thorough {
+		seconds = uts // thorough: the second extra field ranges over every unknown type too
+	}
+	ns := len(seconds)
+	k := c.Choose(1+ns*6+2, explore.Data, "second-extra")
+	if k >= 1+ns*6 {
+		n := []int{9, 17}[k-1-ns*6]
 		for i := 0; i < n; i++ {
 			extras = append(extras, c11Extra{level: e1.level, id: uint16(400 + 3*i), t: uts[(i*5+1)%len(uts)]})
 		}
 	} else if k > 0 {
 		k--
-		second := []*ref.Type{universe.Sc(ref.KI16), universe.Sc(ref.KString), universe.ListOf(universe.StPtr(universe.Leaf()))}[k%3]
-		e2 := c11Extra{level: (k / 3) % 3, id: []uint16{4, 301}[k/9], t: second}
+		e2 := c11Extra{level: (k / ns) % 3, id: []uint16{4, 301}[k/(3*ns)], t: seconds[k%ns]}
 		extras = append(extras, e2)
 	}
 	ord := c.Choose(3, explore.Data, "wire-order")
